@@ -8,11 +8,17 @@ of the cells of `k`.
 -/
 import RpylibModel.Model.Samplers
 import RpylibModel.Proofs.Lemmas.C02Inversion
+import RpylibModel.Proofs.Lemmas.C02InversionSkip
 import RpylibModel.Proofs.Lemmas.C02Alias
 import RpylibModel.Proofs.Lemmas.C02AliasBuild
 import RpylibModel.Proofs.Lemmas.C02Bst
+import RpylibModel.Proofs.Lemmas.C02BstBuild
+import RpylibModel.Proofs.Lemmas.C02Table
 import RpylibModel.Proofs.Lemmas.C02Huffman
 import RpylibModel.Proofs.Lemmas.C02Adapted
+import RpylibModel.Proofs.Lemmas.C02AdaptedNd
+import RpylibModel.Proofs.Lemmas.C02AdaptedNdLaw
+import RpylibModel.Proofs.Lemmas.C02AdaptedNdFinal
 
 set_option linter.dupNamespace false
 
@@ -101,6 +107,40 @@ def skipEnv : Env := ⟨[true, false, true, true], 3, [1/4, 0, 1/4, 1/2], 2⟩
 example : cellsGen skipEnv = [(0, 0, 1/4), (2, 1/4, 1/2), (3, 1/2, 1)] := by decide +kernel
 example : (init skipEnv).map (fun st => (step skipEnv st (3/4)).2) = some (some 2) := by decide +kernel
 example : (init { skipEnv with maxStorage := 10 }).map (fun st => (step { skipEnv with maxStorage := 10 } st (3/4)).2)
+    = some (some 3) := by decide +kernel
+
+/-! ### skipped pairing indices (unequal-sided n-d boxes), storage cap not reached -/
+
+/-- **history independence with skipped indices**: for ANY admissibility pattern of the pairing indices (unequal sides,
+    domains), as long as the storage cap is not reached (fewer admissible states than `_max_storage`; the default cap is
+    10^6), after any sequence of earlier draws the state returned for `u` is the canonical one `spec e u` — the first
+    admissible state whose cumulative sum reaches `u` — hence the same as on a fresh instance.  (Invariant `InvS`: the
+    memo is a prefix of the canonical list and the skip pointer lies in the gap of inadmissible indices behind the last
+    memoised state.  With the cap reached and a skipped index below it the statement is false: `skipEnv` above.) -/
+theorem history_independent_skip {e : Env} (hp : Nonneg e) (hcap : (full e).length < e.maxStorage) {st0 : St}
+    (h0 : init e = some st0) (us : List Rat) (u : Rat) :
+    (step e (run e st0 us) u).2 = spec e u ∧ (step e (run e st0 us) u).2 = (step e st0 u).2 := by
+  have hI := init_skip h0
+  have h1 := (step_skip hp hcap _ u (run_skip hp hcap us _ hI)).1
+  have h2 := (step_skip hp hcap _ u hI).1
+  exact ⟨h1, by rw [h1, h2]⟩
+
+/-- **draw spec with skipped indices**: after any history, for `u > 0`, state `k` is returned exactly when `u` lies in the
+    cell `(lo, hi]` of `k` in `cellsGen` (one cell per admissible state, of length `p_k`, in enumeration order) -/
+theorem draw_spec_skip {e : Env} (hp : Nonneg e) (hcap : (full e).length < e.maxStorage) {st0 : St}
+    (h0 : init e = some st0) (us : List Rat) (u : Rat) (hu : 0 < u) (k : Nat) :
+    (step e (run e st0 us) u).2 = some k ↔ ∃ c ∈ cellsGen e, c.1 = k ∧ c.2.1 < u ∧ u ≤ c.2.2 := by
+  rw [(history_independent_skip hp hcap h0 us u).1]
+  exact spec_cells hp u hu k
+
+/-- a sufficient condition for "cap not reached": the frontier maximum is below the cap -/
+theorem cap_not_reached (e : Env) (h : e.maxFrontier + 1 < e.maxStorage) : (full e).length < e.maxStorage :=
+  lt_of_le_of_lt (full_length_le e) h
+
+/-- non-vacuity: the skipping environment with the cap out of reach; a history that revisits and extends the memo -/
+example : (full { skipEnv with maxStorage := 10 }).length < 10 := by decide +kernel
+example : (init { skipEnv with maxStorage := 10 }).map (fun st =>
+    (step { skipEnv with maxStorage := 10 } (run { skipEnv with maxStorage := 10 } st [3/8, 1/8, 1, 3/8]) (3/4)).2)
     = some (some 3) := by decide +kernel
 
 end Rpylib.Inversion
@@ -235,16 +275,57 @@ theorem zero_never (K : Nat) (bst : Nat → Rat) (k : Nat) (hz : lengthOf (cells
   exact Rpylib.Alias.no_cell_of_length_zero (cells K bst) k (fun c hc => (cells_wellformed K bst c hc).2.2.le) hz u
     ((draw_spec K bst u h0 h1 k).mp h)
 
-/-
-Full statement NOT proved (see NOT_PROVED): for p ≥ 0 with Σ p = 1,
-  `lengthOf (cells K (build K p)) k = p k` for every state k ≤ K
-(the in-order walk gives node `ptr` the sum of the leaves before it).  The check applies the proved `draw_spec` to the
-array the implementation built and compares the lengths with p; the model's `build` is compared with the
-implementation's array exactly on the dyadic stream.
--/
-/-- partial: the construction realises p on a concrete 4-state vector (K = 3, tree not perfect) -/
-theorem build_law_partial :
-    (List.range 4).map (lengthOf (cells 3 (build 3 (fun i => [1/8, 1/2, 1/4, 1/8].getD i 0)))) = [1/8, 1/2, 1/4, 1/8] := by
+/-- **construction**: `create_binary_search_tree(p)` as coded (in-order walk of the implicit heap with an explicit stack,
+    every internal node receives the running cumulative probability) realises the input vector: for every `K` and every
+    `p ≥ 0` on the `K+1` states with `Σ p = 1`, the u-cells of state `k` of the built threshold table have total length
+    `p k`.  (Every leaf `K+1 … 2K+1` of the heap is visited exactly once — `massOf_eq_sum`; the leaves are *not* visited in
+    state order when the tree is not perfect, the law does not depend on it.)  With `draw_spec`: the set of `u ∈ [0,1)`
+    sent to `k` has total length `p k`. -/
+theorem build_law (K : Nat) (p : Nat → Rat) (hp : ∀ i, i ≤ K → 0 ≤ p i)
+    (hsum : ((List.range (K + 1)).map p).sum = 1) (k : Nat) (hk : k ≤ K) :
+    lengthOf (cells K (build K p)) k = p k := by
+  classical
+  have hroot : ∀ i, (∃ j, (K + 1 + i) / 2 ^ j = 1) := fun i => anc_root _ (by omega)
+  have htot : (walk K p (K + 1) 1 0).2 = 1 := by
+    rw [walk_snd K p _ _ _ (Ok.root K), massOf_eq_sum K _ _ _ (Ok.root K), zero_add, ← hsum,
+      Rpylib.Alias.list_range_sum]
+    apply Finset.sum_congr rfl
+    intro i _
+    rw [if_pos (hroot i)]
+    congr 1; omega
+  have h := cells_of_walk K p hp (build K p) k (K + 1) 1 0 (Ok.root K) (build_agrees K p)
+  rw [htot] at h
+  unfold cells
+  rw [h, massOf_eq_sum K _ _ _ (Ok.root K), Finset.sum_eq_single_of_mem k (by simp; omega)]
+  · rw [if_pos (hroot k)]
+    have e : K + 1 + k - K - 1 = k := by omega
+    rw [e, if_pos rfl]
+  · intro i _ hne
+    rw [if_pos (hroot i)]
+    have e : K + 1 + i - K - 1 = i := by omega
+    rw [e, if_neg hne]
+
+/-- the built table sends exactly the cells of `k` to `k`, their total length is `p k`, and (**zero never**) a state
+    with `p k = 0` is never returned -/
+theorem build_realises (K : Nat) (p : Nat → Rat) (hp : ∀ i, i ≤ K → 0 ≤ p i)
+    (hsum : ((List.range (K + 1)).map p).sum = 1) (k : Nat) (hk : k ≤ K) :
+    lengthOf (cells K (build K p)) k = p k ∧
+      (∀ u, 0 ≤ u → u < 1 → (draw K (build K p) u = k ↔ ∃ c ∈ cells K (build K p), c.1 = k ∧ c.2.1 ≤ u ∧ u < c.2.2)) ∧
+      (p k = 0 → ∀ u, 0 ≤ u → u < 1 → draw K (build K p) u ≠ k) := by
+  have hb := build_law K p hp hsum k hk
+  exact ⟨hb, fun u h0 h1 => draw_spec K (build K p) u h0 h1 k,
+    fun hz u h0 h1 => zero_never K (build K p) k (by rw [hb, hz]) u h0 h1⟩
+
+/-- the state returned is one of the `K+1` states -/
+theorem draw_le (K : Nat) (bst : Nat → Rat) (u : Rat) : draw K bst u ≤ K :=
+  descend_le K bst u (K + 1) 1 (by omega)
+
+/-- non-vacuity: a concrete 4-state vector (K = 3) and a 3-state vector (K = 2, tree not perfect: the leaves are visited
+    in the order 1, 2, 0) -/
+example : (List.range 4).map (lengthOf (cells 3 (build 3 (fun i => [1/8, 1/2, 1/4, 1/8].getD i 0)))) = [1/8, 1/2, 1/4, 1/8] := by
+  decide +kernel
+example : (List.range 3).map (lengthOf (cells 2 (build 2 (fun i => [1/8, 1/2, 3/8].getD i 0)))) = [1/8, 1/2, 3/8] ∧
+    (cells 2 (build 2 (fun i => [1/8, 1/2, 3/8].getD i 0))).map (·.1) = [1, 2, 0] := by
   decide +kernel
 
 end Rpylib.Bst
@@ -337,13 +418,8 @@ end Rpylib.Huffman
 /-! ## Table method (256 slots + residual alias): law of the idealised sampler -/
 namespace Rpylib.Table
 
-/-
-Full statement NOT proved: `∀ p ≥ 0, Σ p = 1, build n p = some t → ∀ k < n, lawOfTables t k = p k`.
-Proved part: the algebra of slots + residual, *given* (a) the slot counts of `slotsOf` (`k_i` copies of `i`,
-`256 − Σ k_i = Σ θ_i` copies of −1 when Σ p = 1; compared exactly with the implementation's table) and (b) that the
-residual alias tables realise `θ / Σθ` (alias construction: certificate `Alias.law_of_cells`).
--/
-/-- partial: slots + residual realise `p_k` -/
+/-- algebra of slots + residual, for arbitrary tables: *given* the slot counts and the residual law, the idealised law is
+    `p_k` (the hypotheses are discharged for the constructed tables in `build_law` below) -/
 theorem law_partial (t : Tables) (n : Nat) (p : Nat → Rat) (k : Nat)
     (hk : (slotCount t (k : Int) : Rat) = ((((256 : Rat) * p k).floor.toNat : Nat) : Rat))
     (hres : (slotCount t (-1) : Rat) = thetaSum n p) (hS : 0 < thetaSum n p)
@@ -360,6 +436,98 @@ theorem low_byte_shift (i : Nat) : (i : Rat) / 4294967296 - ((i / 256 * 256 : Na
     have : ((i - i / 256 * 256 : Nat) : Rat) < 256 := by exact_mod_cast h
     rw [Nat.cast_sub h2] at this; exact this
   rw [← sub_div, div_lt_iff₀ (by norm_num)]; linarith
+
+/-- the tables `create_table` builds (when it does not raise) -/
+theorem build_eq {n : Nat} {p : Nat → Rat} {t : Tables} (hb : build n p = some t) :
+    0 < thetaSum n p ∧ t = ⟨slotsOf n p, Alias.build n (fun i => theta p i / thetaSum n p)⟩ := by
+  simp only [build] at hb
+  split_ifs at hb with hS
+  exact ⟨hS, (Option.some.inj hb).symm⟩
+
+/-- the vector handed to the residual alias is a probability vector: `θ_i / Σθ ≥ 0`, `Σ = 1`, where
+    `θ_i / 256 = p_i − slots_i / 256 ∈ [0, 1/256)` -/
+theorem resid_is_prob (n : Nat) (p : Nat → Rat) (hp : ∀ i, i < n → 0 ≤ p i) (hS : 0 < thetaSum n p) :
+    (∀ i, i < n → 0 ≤ theta p i / thetaSum n p) ∧ ((List.range n).map (fun i => theta p i / thetaSum n p)).sum = 1 := by
+  refine ⟨fun i hi => div_nonneg (theta_bounds p i (hp i hi)).1 hS.le, ?_⟩
+  rw [Rpylib.Alias.list_range_sum]
+  simp only [div_eq_mul_inv]
+  rw [← Finset.sum_mul, ← Rpylib.Alias.list_range_sum]
+  exact mul_inv_cancel₀ (ne_of_gt hS)
+
+/-- **construction, unconditional for the stated idealisation** (slot uniform on the 256 values, residual uniform on
+    `[0,1)` independent of it): for every `n`, every `p ≥ 0` with `Σ p = 1`, whenever `create_table(p)` returns tables, they
+    have exactly 256 slots, state `k` holds `⌊256 p_k⌋` of them, `Σ θ` hold `-1`, the residual alias tables realise
+    `θ / Σθ` (`Alias.build_law`), and the law of the sampler is `p`.  (`create_table` raises exactly when all `256 p_i` are
+    integers: `build_none_iff`, a known finding.) -/
+theorem build_law (n : Nat) (p : Nat → Rat) (hp : ∀ i, i < n → 0 ≤ p i) (hsum : ((List.range n).map p).sum = 1)
+    (t : Tables) (hb : build n p = some t) (k : Nat) (hk : k < n) :
+    lawOfTables t k = p k ∧ t.slots.length = 256 ∧ (slotCount t (k : Int) : Rat) = ((256 : Rat) * p k).floor.toNat ∧
+      (slotCount t (-1) : Rat) = thetaSum n p ∧ Alias.lawOfTables t.resid k = theta p k / thetaSum n p := by
+  obtain ⟨hS, rfl⟩ := build_eq hb
+  have hs' : ∑ i ∈ Finset.range n, p i = 1 := by rw [← Rpylib.Alias.list_range_sum]; exact hsum
+  obtain ⟨hq, hq1⟩ := resid_is_prob n p hp hS
+  have h1 := slotCount_state n p (Alias.build n (fun i => theta p i / thetaSum n p)) k hk
+  have h1' : (slotCount ⟨slotsOf n p, Alias.build n (fun i => theta p i / thetaSum n p)⟩ (k : Int) : Rat)
+      = ((((256 : Rat) * p k).floor.toNat : Nat) : Rat) := by rw [h1]; rfl
+  have h2 := slotCount_neg_prob n p (Alias.build n (fun i => theta p i / thetaSum n p)) hp hs'
+  have h3 := Alias.build_law n (by omega) (fun i => theta p i / thetaSum n p) hq hq1 k hk
+  refine ⟨law_partial _ n p k h1' h2 hS h3, ?_, h1', h2, h3⟩
+  show (slotsOf n p).length = 256
+  rw [slots_length, if_pos (sum_m_le n p hp hs')]
+
+/-- `create_table` raises (`none`) exactly when the residuals vanish, i.e. (for `p ≥ 0`) when every `256 p_i` is an
+    integer — although the 256 slots alone would realise the law (known finding C02-table-all-multiples-of-1-256) -/
+theorem build_none_iff (n : Nat) (p : Nat → Rat) (hp : ∀ i, i < n → 0 ≤ p i) :
+    build n p = none ↔ ∀ i, i < n → (256 : Rat) * p i = (((256 : Rat) * p i).floor.toNat : Rat) := by
+  have hnn := thetaSum_nonneg n p hp
+  have hiff : thetaSum n p = 0 ↔ ∀ i ∈ Finset.range n, theta p i = 0 := by
+    unfold thetaSum; rw [Rpylib.Alias.list_range_sum]
+    exact Finset.sum_eq_zero_iff_of_nonneg (fun i hi => (theta_bounds p i (hp i (Finset.mem_range.mp hi))).1)
+  constructor
+  · intro h i hi
+    have h0 : thetaSum n p = 0 := by
+      simp only [build] at h
+      split_ifs at h with hS
+      linarith
+    have := hiff.mp h0 i (Finset.mem_range.mpr hi)
+    unfold theta at this; linarith
+  · intro h
+    have h0 : thetaSum n p = 0 := hiff.mpr (fun i hi => by
+      have := h i (Finset.mem_range.mp hi); unfold theta; linarith)
+    simp only [build]
+    rw [if_neg (by rw [h0]; exact lt_irrefl _)]
+
+/-- **zero never**: with the constructed tables a state of probability 0 is returned for no 32-bit integer (it owns no
+    slot, and the residual alias never returns it) -/
+theorem zero_never (n : Nat) (p : Nat → Rat) (hp : ∀ i, i < n → 0 ≤ p i)
+    (t : Tables) (hb : build n p = some t) (k : Nat) (hk : k < n) (hz : p k = 0) (i : Nat) (hi : i < 4294967296) :
+    draw t i ≠ k := by
+  obtain ⟨hS, rfl⟩ := build_eq hb
+  obtain ⟨hq, hq1⟩ := resid_is_prob n p hp hS
+  have hcnt := slotCount_state n p (Alias.build n (fun i => theta p i / thetaSum n p)) k hk
+  have hm : mOf p k = 0 := Rpylib.Alias.floor_toNat_eq (x := 0) (by simp [hz]) (by simp [hz])
+  intro hd
+  simp only [draw] at hd
+  split_ifs at hd with hji
+  · -- a slot holding `k`
+    have hmem : ((k : Int)) ∈ slotsOf n p := by
+      have e : (slotsOf n p).getD (i % 256) (-1) = (k : Int) := by omega
+      rw [List.getD_eq_getElem?_getD] at e
+      cases hget : (slotsOf n p)[i % 256]? with
+      | none => rw [hget] at e; simp at e
+      | some v => rw [hget] at e; simp at e; subst e; exact List.mem_of_getElem? hget
+    have : 0 < slotCount ⟨slotsOf n p, Alias.build n (fun i => theta p i / thetaSum n p)⟩ (k : Int) := by
+      unfold slotCount
+      exact List.length_pos_of_mem (List.mem_filter.mpr ⟨hmem, by simp⟩)
+    omega
+  · -- the residual alias
+    have hth : theta p k / thetaSum n p = 0 := by
+      have : theta p k = 0 := by rw [theta_eq, hm, hz]; simp
+      rw [this, zero_div]
+    have hu0 : (0 : Rat) ≤ (i : Rat) / 4294967296 := div_nonneg (by exact_mod_cast Nat.zero_le i) (by norm_num)
+    have hu1 : (i : Rat) / 4294967296 < 1 := by
+      rw [div_lt_iff₀ (by norm_num), one_mul]; exact_mod_cast hi
+    exact (Alias.build_realises n (by omega) _ hq hq1 k hk).2 hth _ hu0 hu1 hd
 
 /-- non-vacuity: `create_table` on p = (1/3, 2/3): 85 + 170 slots, one residual slot, residual law (1/3, 2/3) -/
 example : (build 2 (fun i => [1/3, 2/3].getD i 0)).map (fun t => (List.range 2).map (lawOfTables t)) = some [1/3, 2/3] := by
@@ -433,3 +601,165 @@ example : (List.map (draw (fun i => [1/8, 1/8, 0, 1/4, 1/2].getD i 0) 5 2 (1/4))
     = [0, 0, 1, 3, 3, 4, 4] := by decide +kernel
 
 end Rpylib.Adapted
+
+/-! ## n-dimensional adapted binary search (bucket search, then axis-cycling bisection on box masses `M`) -/
+namespace Rpylib.AdaptedNd
+
+/-- **draw spec** for *arbitrary* tables (any buckets, any box-mass table `M`): for `u > 0`, `sample_with_us` returns
+    state `s` exactly when `u` lies in one of the explicit cells `lo < u ≤ hi` of `s` -/
+theorem draw_spec (t : Tables) (u : Rat) (hu : 0 < u) (s : List Nat) :
+    draw t u = some s ↔ ∃ c ∈ cells t, c.1 = s ∧ c.2.1 < u ∧ u ≤ c.2.2 := by
+  have h := from_spec t.M u t.buckets 0 0 hu
+  unfold draw cells
+  cases hf : findBucket t.buckets u 0 with
+  | none =>
+    rw [hf] at h
+    constructor
+    · intro hc; cases hc
+    · rintro ⟨c, hc, _, h1, h2⟩; exact absurd ⟨h1, h2⟩ (h c hc)
+  | some p =>
+    obtain ⟨bk, b'⟩ := p
+    rw [hf] at h
+    obtain ⟨⟨c, hc, e1, e2⟩, hb⟩ := h
+    constructor
+    · intro hs
+      simp only [Option.some.injEq] at hs
+      exact ⟨c, hc, by rw [e1]; exact hs, e2.1, e2.2⟩
+    · rintro ⟨c', hc', rfl, h1, h2⟩
+      rw [hb c' hc' ⟨h1, h2⟩]
+
+/-- the code raises IndexError (`none`) exactly for a uniform above every cumulated bucket probability; no cell there -/
+theorem draw_none_iff (t : Tables) (u : Rat) : draw t u = none ↔ ∀ bk ∈ t.buckets, bk.cumP < u := by
+  rw [← findBucket_none u t.buckets 0]
+  unfold draw
+  cases findBucket t.buckets u 0 with
+  | none => simp
+  | some p => simp
+
+/-- **cover**: every `0 < u ≤` some cumulated bucket probability lies in a cell (of the state returned) -/
+theorem cells_cover (t : Tables) (u : Rat) (hu : 0 < u) (hb : ∃ bk ∈ t.buckets, u ≤ bk.cumP) :
+    ∃ s, draw t u = some s ∧ ∃ c ∈ cells t, c.1 = s ∧ c.2.1 < u ∧ u ≤ c.2.2 := by
+  cases hd : draw t u with
+  | none =>
+    obtain ⟨bk, hbk, hle⟩ := hb
+    have := (draw_none_iff t u).mp hd bk hbk
+    linarith
+  | some s => exact ⟨s, rfl, (draw_spec t u hu s).mp hd⟩
+
+/-- **disjoint**: two cells containing the same `u > 0` carry the same state -/
+theorem cells_disjoint (t : Tables) (u : Rat) (hu : 0 < u) (c c' : Cell) (hc : c ∈ cells t) (hc' : c' ∈ cells t)
+    (h : c.2.1 < u ∧ u ≤ c.2.2) (h' : c'.2.1 < u ∧ u ≤ c'.2.2) : c.1 = c'.1 := by
+  have e1 := (draw_spec t u hu c.1).mpr ⟨c, hc, rfl, h.1, h.2⟩
+  have e2 := (draw_spec t u hu c'.1).mpr ⟨c', hc', rfl, h'.1, h'.2⟩
+  rw [e1] at e2; exact Option.some.inj e2
+
+/-- every cell is a non-empty interval inside `(0, ∞)` -/
+theorem cells_wellformed (t : Tables) : ∀ c ∈ cells t, 0 ≤ c.2.1 ∧ c.2.1 < c.2.2 :=
+  cellsFrom_lower t.M t.buckets 0 0
+
+/-- **bucket law**: if the box mass `M` is non-negative and additive under the midpoint cuts (a measure on index
+    boxes), the axis-cycling bisection of a box `b` started on `(base, base + M b]` gives state `s` cells of total
+    length `M (point s)` when `s ∈ b` and nothing otherwise — every state of the bucket receives exactly the mass of its
+    own cell -/
+theorem bucket_law (M : Box → Rat) (hadd : Additive M) (hnn : ∀ b, 0 ≤ M b) (b : Box) (hw : WfBox b) (base : Rat)
+    (s : List Nat) :
+    lengthOf (cellsSearch M (fuelOf b) b base base (base + M b)) s = if inBox s b then M (point s) else 0 :=
+  search_law M hadd hnn s (fuelOf b) b base hw (le_refl _)
+
+/-- **law of the tables**: for tables consistent with a non-negative additive `M` (`_cum_ps` = cumulated box masses,
+    axis vectors non-decreasing and ending at the box mass) the cells of `s` have total length
+    `Σ_buckets bucketLaw` = `M (point s)` from the bisected bucket containing `s`, the increment of the axis vector at the
+    position of `s` from an axis bucket -/
+theorem law_of_cells (t : Tables) (hadd : Additive t.M) (hnn : ∀ b, 0 ≤ t.M b) (hc : Consistent t.M t.buckets 0)
+    (s : List Nat) : lengthOf (cells t) s = (t.buckets.map (fun bk => bucketLaw t.M bk s)).sum :=
+  from_law t.M hadd hnn s t.buckets 0 hc
+
+/-- **construction**: the tables `_pre_computation` builds (3^d − 1 buckets = products of the pieces {origin}, left,
+    right of every axis without the all-origin one; cumulated bucket masses; precomputed vectors for the axis buckets)
+    from a non-negative box mass `M` that is additive under midpoint cuts, on a grid whose origin is strictly inside every
+    axis, realise `M`: the cells of a grid state `s` other than the origin have total length `M (point s)` (the mass of
+    its own cell), the origin and every state outside the grid get nothing.  With `draw_spec`: the set of `u > 0` sent to
+    `s` has exactly that length.  (Exact arithmetic; in floats the last entry of an axis vector may fall a few ulps short
+    of the bucket mass: known finding C02-adapted-nd-axis-bucket-float-sliver.) -/
+theorem build_law (M : Box → Rat) (hadd : Additive M) (hnn : ∀ b, 0 ≤ M b) (low : Bool) (axes : List (Nat × Nat))
+    (hw : WfAxes axes) (s : List Nat) :
+    lengthOf (cells (build M low axes)) s = if inGrid s axes = true ∧ s ≠ originOf axes then M (point s) else 0 := by
+  have hwb := wf_buckets axes hw
+  have hc : Consistent (build M low axes).M (build M low axes).buckets 0 :=
+    consistent_buildFrom M hadd hnn low (bucketBoxes axes) 0 hwb
+  rw [law_of_cells (build M low axes) hadd hnn hc s]
+  show ((buildFrom M low (bucketBoxes axes) 0).map (fun bk => bucketLaw M bk s)).sum = _
+  rw [law_buildFrom M hadd hnn low s _ 0 hwb, sum_cellMass, hits_buckets axes s hw]
+  split_ifs <;> simp
+
+/-- **zero never / never the origin / never outside the grid**: with the built tables a state that is the origin, lies
+    outside the grid or whose cell has mass 0 is returned for no `u > 0` -/
+theorem build_zero_never (M : Box → Rat) (hadd : Additive M) (hnn : ∀ b, 0 ≤ M b) (low : Bool) (axes : List (Nat × Nat))
+    (hw : WfAxes axes) (s : List Nat) (hz : ¬ (inGrid s axes = true ∧ s ≠ originOf axes) ∨ M (point s) = 0) (u : Rat)
+    (hu : 0 < u) : draw (build M low axes) u ≠ some s := by
+  intro hd
+  obtain ⟨c, hc, hs, h1, h2⟩ := (draw_spec _ u hu s).mp hd
+  have hl := build_law M hadd hnn low axes hw s
+  have h0 : lengthOf (cells (build M low axes)) s = 0 := by
+    rw [hl]; rcases hz with hz | hz
+    · rw [if_neg hz]
+    · split_ifs <;> simp [hz]
+  have := Rpylib.Alias.sum_eq_zero_of_nonneg _ (by
+    intro x hx
+    obtain ⟨c', hc', rfl⟩ := List.mem_map.mp hx
+    have := (cells_wellformed _ c' hc').2
+    split_ifs <;> linarith) h0 (c.2.2 - c.2.1) (List.mem_map.mpr ⟨c, hc, by simp [hs]⟩)
+  have := (cells_wellformed _ c hc).2
+  linarith
+
+/-- non-vacuity of the hypotheses: the counting measure of index boxes is non-negative and additive -/
+def countM : Box → Rat := fun b => ((b.map (fun lr => lr.2 + 1 - lr.1)).prod : Nat)
+
+theorem countM_set : ∀ (b : Box) (k l r l' r' : Nat), b[k]? = some (l, r) →
+    (((b.set k (l', r')).map (fun lr => lr.2 + 1 - lr.1)).prod) * (r + 1 - l) = ((b.map (fun lr => lr.2 + 1 - lr.1)).prod) * (r' + 1 - l') := by
+  intro b
+  induction b with
+  | nil => intro k l r l' r' h; simp at h
+  | cons x b ih =>
+    intro k l r l' r' h
+    cases k with
+    | zero =>
+      simp only [List.getElem?_cons_zero, Option.some.injEq] at h; subst h
+      simp only [List.set_cons_zero, List.map_cons, List.prod_cons]; ring
+    | succ k =>
+      simp only [List.getElem?_cons_succ] at h
+      have := ih k l r l' r' h
+      simp only [List.set_cons_succ, List.map_cons, List.prod_cons]
+      rw [Nat.mul_assoc, this, Nat.mul_assoc]
+
+theorem countM_additive : Additive countM ∧ ∀ b, 0 ≤ countM b := by
+  refine ⟨?_, fun b => by unfold countM; exact_mod_cast Nat.zero_le _⟩
+  intro b k l r hk hlt
+  have h1 := countM_set b k l r l ((l + r) / 2) hk
+  have h2 := countM_set b k l r ((l + r) / 2 + 1) r hk
+  unfold countM
+  have hpos : 0 < r + 1 - l := by omega
+  have e : ((b.set k (l, (l + r) / 2)).map (fun lr => lr.2 + 1 - lr.1)).prod +
+      ((b.set k ((l + r) / 2 + 1, r)).map (fun lr => lr.2 + 1 - lr.1)).prod = (b.map (fun lr => lr.2 + 1 - lr.1)).prod := by
+    apply Nat.eq_of_mul_eq_mul_right hpos
+    rw [Nat.add_mul, h1, h2, ← Nat.mul_add]
+    congr 1; omega
+  rw [← e]; push_cast; ring
+
+/-- non-vacuity of `build_law`: a 3 x 4 grid (origins 1 and 2) with the counting measure: every non-origin state gets 1,
+    the origin and an outside state 0 -/
+example : [[0, 0], [1, 0], [1, 3], [2, 1], [1, 2], [3, 0]].map (lengthOf (cells (build countM true [(1, 3), (2, 4)])))
+    = [1, 1, 1, 1, 0, 0] := by decide +kernel
+
+/-- non-vacuity: a 2 x 2 index box behind an axis bucket; masses 1/4 | 1/8, 1/4, 1/4, 1/8 -/
+def exM : Box → Rat := fun b =>
+  if b = [(0, 0), (0, 1)] then 3/8 else if b = [(0, 0), (0, 0)] then 1/8 else if b = [(1, 1), (0, 0)] then 1/4
+  else if b = [(0, 0), (1, 1)] then 1/4 else if b = [(1, 1), (1, 1)] then 1/8 else if b = [(1, 1), (0, 1)] then 3/8
+  else if b = [(0, 1), (0, 1)] then 3/4 else 0
+def exT : Tables := ⟨[⟨[(2, 2), (0, 0)], 1/4, true, [1/4]⟩, ⟨[(0, 1), (0, 1)], 1, false, []⟩], exM⟩
+example : [1/8, 1/4, 5/16, 1/2, 3/4, 1, 9/8].map (draw exT) =
+    [some [2, 0], some [2, 0], some [0, 0], some [0, 1], some [1, 0], some [1, 1], none] := by decide +kernel
+example : [[2, 0], [0, 0], [0, 1], [1, 0], [1, 1], [2, 1]].map (lengthOf (cells exT)) = [1/4, 1/8, 1/4, 1/4, 1/8, 0] := by
+  decide +kernel
+
+end Rpylib.AdaptedNd
